@@ -29,7 +29,8 @@ type c18Scenario struct {
 	Dict   bool   `json:"dict"`   // dictionary-encode the string column
 	Tamper string `json:"tamper"` // none | flip | swap | otherfile | othercol | otherrg | wrongkey | nokey | truncate
 	At     int    `json:"at"`     // data page index the tamper applies to
-	Path   string `json:"path"`   // seq | seek
+	Path   string `json:"path"`   // seq | seek | readseek (read one batch, then seek forward past a whole page)
+	Fid    string `json:"fid"`    // explicit | default: who chooses the file identifier
 	Index  bool   `json:"index"`  // open with the page index
 }
 
@@ -70,8 +71,10 @@ var (
 const c18PageRows, c18Pages, c18Groups = 4, 3, 2
 
 func c18Write(sc *c18Scenario, fileID byte) ([]byte, error) {
-	cfg := &parquet.EncryptionConfig{FooterKey: c18Footer, EncryptedFooter: sc.Mode == "encfooter",
-		FileIdentifier: []byte{fileID, 2, 3, 4, 5, 6, 7, 8}}
+	cfg := &parquet.EncryptionConfig{FooterKey: c18Footer, EncryptedFooter: sc.Mode == "encfooter"}
+	if sc.Fid != "default" { // otherwise the library draws a random identifier per file
+		cfg.FileIdentifier = []byte{fileID, 2, 3, 4, 5, 6, 7, 8}
+	}
 	if sc.Keys == "percol" {
 		cfg.ColumnKeys = map[string][]byte{"secret": c18ColKey}
 	}
@@ -127,14 +130,32 @@ func c18Read(data []byte, keys parquet.KeyRetriever, sc *c18Scenario, from int) 
 		return nil, err
 	}
 	r := parquet.NewGenericReader[c18Row](f)
-	defer r.Close()
-	if from > 0 {
-		if err := r.SeekToRow(int64(from)); err != nil {
-			return nil, err
-		}
+	if sc.Path == "readseek" {
+		// one row group: its page readers stay the same across the seek (a multi-row-group reader reopens them)
+		r.Close()
+		r = parquet.NewGenericRowGroupReader[c18Row](f.RowGroups()[0])
 	}
+	defer r.Close()
 	rows = []int{}
 	buf := make([]c18Row, 3)
+	if sc.Path == "readseek" { // something is buffered when the seek comes
+		n, err := r.Read(buf)
+		for _, row := range buf[:n] {
+			if row == c18RowOf(int(row.ID)) {
+				rows = append(rows, int(row.ID))
+			} else {
+				rows = append(rows, alien)
+			}
+		}
+		if err != nil {
+			return rows, err
+		}
+	}
+	if from > 0 {
+		if err := r.SeekToRow(int64(from)); err != nil {
+			return rows, err
+		}
+	}
 	for {
 		n, err := r.Read(buf)
 		for _, row := range buf[:n] {
@@ -199,6 +220,13 @@ func c18Main(args []string) error {
 		if sc.Path == "seek" {
 			from = c18PageRows*sc.At + 1 // a row inside the target page of row group 0
 		}
+		wantRound := expect
+		if sc.Path == "readseek" {
+			from = c18PageRows*2 + 1 // first batch from page 0, then past page 1 into page 2
+			wantRound = append(append([]int{}, expect[:3]...), expect[from:c18PageRows*c18Pages]...)
+		} else {
+			wantRound = expect[from:]
+		}
 		guardRead := func(d []byte, k parquet.KeyRetriever) (rows []int, err error, pan bool, msg string) {
 			pan, msg = guard(func() { rows, err = c18Read(d, k, sc, from) })
 			if rows == nil {
@@ -208,7 +236,7 @@ func c18Main(args []string) error {
 		}
 		// ---- round trip
 		rows, rerr, pan, msg := guardRead(data, keys)
-		e := ev{"path": sc.Path, "rows": ints(rows), "want": expect[from:], "err": b2i(rerr != nil), "panic": b2i(pan)}
+		e := ev{"path": sc.Path, "rows": ints(rows), "want": wantRound, "err": b2i(rerr != nil), "panic": b2i(pan)}
 		if rerr != nil {
 			e["msg"] = rerr.Error()
 		} else if pan {
@@ -220,7 +248,7 @@ func c18Main(args []string) error {
 			found := bytes.Contains(data, []byte("MARKER-"+what))
 			tr.emit("Leak", ev{"what": what, "found": b2i(found)})
 		}
-		if sc.Tamper == "none" {
+		if sc.Tamper == "none" || sc.Path == "readseek" {
 			continue
 		}
 		// ---- tampering
